@@ -67,3 +67,26 @@ CHECKS['C01'] = dict(
     ],
     min_nontrivial={'quick': 1500, 'thorough': 3000},
 )
+
+CHECKS['C02'] = dict(
+    level='exploration',
+    rule="Each case is an encoder (random Fs, channels, application) driven through 8..40 frames with random legal ctl "
+         "changes between frames (bitrate incl. AUTO/MAX, VBR/CVBR, complexity, bandwidth, max bandwidth, forced channels, "
+         "forced mode, FEC, loss, DTX, LSB depth, prediction, phase inversion, signal type), frame durations 2.5..120 ms, "
+         "max_data_bytes 1..4000, float/int16/int24 input from 18 signal families incl. NaN/Inf/1e30/denormals. Every packet "
+         "is checked against the RFC framing model and decoded by a tree decoder at the encoder's rate, a tree decoder at "
+         "another rate/channel count and the frozen reference decoder; durations and final ranges must match. ms: surround "
+         "families 0/1/255, ambisonics family 2 and projection family 3 with per-stream split. Distinct non-trivial = (TOC "
+         "config+stereo+code, frame count class, API, range==0, Fs, application, length class, buffer-filled, signal family, "
+         "VBR/FEC/DTX flags).",
+    assumptions=COMMON_ASSUME + ["'frozen RFC 6716 reference decoder' = /verif/ref source snapshot of the pinned commit b5b845fb built with clang, portable C; conformance defects already in that commit are invisible",
+                                 "oracles/rfc_framing.h decides packet validity"],
+    runs=[
+        dict(h='h_c02.c', mode='single', flavour='asan', ref='float', n={'quick': 1600, 'thorough': 40000}),
+        dict(h='h_c02.c', mode='ms', flavour='asan', ref='float', n={'quick': 500, 'thorough': 12000}),
+        dict(h='h_c02.c', mode='single', flavour='fuzzing', ref='float', n={'quick': 800, 'thorough': 20000}, defs=['-DFUZZING']),
+        dict(h='h_c02.c', mode='single', flavour='asan-fixed', ref='float', n={'quick': 600, 'thorough': 20000}),
+    ],
+    min_nontrivial={'quick': 1500, 'thorough': 3000},
+    min_counters={'quick': {'packets_with_range': 20000}, 'thorough': {'packets_with_range': 500000}},
+)
